@@ -155,6 +155,17 @@ def emit_traversals(R, namespace, path, note):
     kinds = {("opt", "header"): 0, ("call", "global_inst_iter"): 1, ("each", "functions"): 2}
     f.list_def("asmModule", "Nat", [str(kinds[s]) if s in kinds else _bad(s, "Module") for s in R["asm_Module"]])
     f.list_def("asmHeader", "Nat", [str(ix(HDR_FIELDS, x, "asm_header")) for x in R["asm_header"]])
+    # Instruction::assemble_into as a program: 0 letStart | 1 pushOpcode | 2 optPush result_type | 3 optPush result_id |
+    # 4 eachOperand | 5 letEnd | (6, shift) patch
+    prog = []
+    for st in R["asm_Instruction"]:
+        if st[0] == "optPush":
+            prog.append(f"({2 + ix(['result_type', 'result_id'], st[1], 'impl Assemble for dr::Instruction')}, 0)")
+        elif st[0] == "patch":
+            prog.append(f"(6, {st[1]})")
+        else:
+            prog.append(f"({['letStart', 'pushOpcode', None, None, 'eachOperand', 'letEnd'].index(st[0])}, 0)")
+    f.list_def("asmInstruction", "Nat × Nat", prog)
     return write_if_changed(path, f.text())
 
 
